@@ -1280,6 +1280,8 @@ def mon_C17(case, lines):
     for op in case["ops"]:
         if op[0] in ("telem+finish", "telem+init"):
             ops += [("telem", op[1]), ("finish",) if op[0] == "telem+finish" else ("init",)]
+        elif op[0] == "init+telem":
+            ops += [("init",), ("telem", op[1])]
         else:
             ops.append(op)
     for op, line in zip(ops, lines):
